@@ -42,12 +42,12 @@ func mwAnchors() []anchor {
 		cnt("g_mw_max_content", "simpleMaxContentLengthMiddlewareBase", "len(msg.Event.Content)", 0, "len(msg.Event.Content)", "m.maxContentLength"),
 		// time-based ones, on integer seconds: time.Second is the unit
 		{Name: "g_mw_created_lower", File: h, Recv: "simpleCreatedAtLowerLimitMiddlewareBase", Func: "ServeNostrClientMsg",
-			Kind: "ifcond", Select: "time.Since", Header: "(now created_at lower : Z)", RetTy: "bool", Out: out,
-			Syms: map[string]sym{"time.Since(msg.Event.CreatedAtTime())": z("(now - created_at)"),
+			Kind: "ifcond", Select: "sinceCreatedAt", Header: "(now created_at lower : Z)", RetTy: "bool", Out: out,
+			Syms: map[string]sym{"sinceCreatedAt(msg.Event)": z("(now - created_at)"),
 				"time.Duration(m.lower)": z("lower"), "time.Second": z("1")}},
 		{Name: "g_mw_created_upper", File: h, Recv: "simpleCreatedAtUpperLimitMiddlewareBase", Func: "ServeNostrClientMsg",
-			Kind: "ifcond", Select: "time.Until", Header: "(now created_at upper : Z)", RetTy: "bool", Out: out,
-			Syms: map[string]sym{"time.Until(msg.Event.CreatedAtTime())": z("(created_at - now)"),
+			Kind: "ifcond", Select: "untilCreatedAt", Header: "(now created_at upper : Z)", RetTy: "bool", Out: out,
+			Syms: map[string]sym{"untilCreatedAt(msg.Event)": z("(created_at - now)"),
 				"time.Duration(m.upper)": z("upper"), "time.Second": z("1")}},
 		// EventCreatedAtMiddleware: sub := time.Until(created)
 		{Name: "g_mw_created_window_old", File: h, Recv: "simpleEventCreatedAtMiddlewareBase", Func: "ServeNostrClientMsg",
